@@ -11,12 +11,32 @@ CHECKS = {
  "C02": (False, "", "", "", "4/C02"),
  "C03": (False, "", "", "", "4/C03"),
  "C04": (False, "", "", "", "4/C04"),
- "C05": (False, "", "", "", "4/C05"),
- "C06": (False, "", "", "", "4/C06"),
- "C07": (False, "", "", "", "4/C07"),
+ "C05": (True,
+   'bounded exhaustive exploration of the real parser over all expression trees up to a depth bound, printed by a stratified-grammar reference printer, compared with the tree built through the public constructors',
+   'Every tree of depth <= 2 over 21 leaf forms x 7 unary x 2 binary constructors (2.2e6 trees; thorough adds depth 3 over 3 leaves, 2.9e7), every unary chain to length 4/5 and every binary spine to 4/5 leaves is printed with exactly the parentheses the documented table requires (plus: one redundant pair at each node, fully parenthesised) and parsed by the real Parse; the result must be reflect.DeepEqual to the tree built from the same AST with expr.AND/Eq/Rang/... Nothing sampled.',
+   "Trusts the harness printer's reading of the table (calibrated: the only disagreements on the pinned tree were the repeated-prefix-operator defect, since fixed). General trees deeper than 3 are outside the bound.",
+   "4/C05"),
+ "C06": (True,
+   'bounded exhaustive exploration of the real parser over all token sequences up to a length bound (full and focused alphabets) and edit neighbourhoods of valid queries, each accepted tree checked by a derivation-matcher reference model',
+   'All token sequences of length <= 4/5 over a 28-token alphabet with every token type, <= 7-10 over five focused sub-alphabets, and everything within 1-2 token edits of every depth-1 tree rendering, x {no default field, default field}: whenever the real Parse accepts, a memoised recogniser decides whether the returned tree can be laid over the token sequence with the documented productions (term typing, operator consumption, bracket pairing, non-empty groups, term range bounds).',
+   'The matcher is deliberately permissive where the documentation is silent (parenthesised field/distance, mixed range brackets). Sequences longer than the bounds and not near a valid query are outside.',
+   "4/C06"),
+ "C07": (True,
+   'bounded exhaustive exploration of the real parser: all trees to a depth bound x all subsets of AND nodes written as juxtaposition, differential oracle Parse(juxtaposed) == Parse(explicit AND)',
+   'For every tree of depth <= 2 over 21 leaf forms (thorough: + depth 3 over 2 and 3 leaves) and every binary spine to 5/6 leaves, every non-empty subset of eligible AND nodes is printed as juxtaposition and parsed; it must parse (core gaps) and be DeepEqual to the parse of the explicit-AND text. 4.5e6 texts in the quick tier.',
+   'Non-core gaps (after a closing bracket or postfix operator, before ( NOT + -) may be rejected; counted in evidence (rejected_noncore). Depth > 3 outside the bound.',
+   "4/C07"),
  "C08": (False, "", "", "", "4/C08"),
- "C09": (False, "", "", "", "4/C09"),
- "C10": (False, "", "", "", "4/C10"),
+ "C09": (True,
+   'bounded exhaustive exploration of the real lexer+parser: all token sequences to a length bound x all whitespace fillings / keyword case patterns / redundant-parenthesis placements, metamorphic oracle between two runs',
+   'Every token sequence of length <= 4/5 over the 28-token alphabet (accepted and rejected) is re-laid-out with every uniform filler, every single-gap deviation (thorough: two-gap), leading/trailing whitespace, every case pattern of every keyword; every tree text gets redundant parentheses at the root, at each operand of an explicit operator, around each term value and all at once (with and without default field). Parse outcome must be identical (tree DeepEqual; failure preserved for whitespace/case). 2e7 variants quick.',
+   'Only the four ASCII whitespace characters; empty filler only next to a symbol token so tokens can never fuse.',
+   "4/C09"),
+ "C10": (True,
+   'bounded exhaustive exploration of Parse/ToPostgres/ToParameterizedPostgres over all token sequences, byte strings and edit neighbourhoods up to a bound, with an independent shape-walk reference',
+   'Every token sequence <= 4/5 (full alphabet) and <= 6/7 (five focused alphabets), every byte string <= 4/5 over 16 class representatives, every 1-edit neighbour of every depth-1 tree text, each with and without a default field: result pairs must be all-or-nothing, accepted trees must pass Validate and an independent walk of the statement\'s shape rules, render results must be (text,nil) or ("",err).',
+   "Panics are C01's (counted as skipped_upstream). Inputs beyond the bounds are outside.",
+   "4/C10"),
  "C11": (False, "", "", "", "4/C11"),
  "C12": (False, "", "", "", "4/C12"),
  "C13": (False, "", "", "", "4/C13"),
